@@ -383,3 +383,26 @@ Proof.
       apply andb_prop in Hal as [-> _]. reflexivity. }
   destruct (finish_ok _ Hg2) as [Hi _]. exact Hi.
 Qed.
+
+(* ---------- the crate (package) name that the examples import ---------- *)
+Lemma lc_nodigit_alpha c : lc c = true -> is_digit c = false -> is_alpha c = true.  Proof. case_ascii c. Qed.
+Lemma lcu_ident_char c : lcu c = true -> ident_char c = true.  Proof. case_ascii c. Qed.
+Lemma lc_digit_not_start c : lc c = true -> is_digit c = true -> (is_alpha c || ceqb c "_"%char) = false.
+Proof. case_ascii c. Qed.
+
+(* For every service name over [A-Za-z0-9_ -] with a letter or digit, the package name is non-empty, made of [a-z0-9_],
+   starts with a letter or digit, and is accepted as an identifier in `use <pkg>::...` exactly when it does not start
+   with a digit (libninja does not repair that case: the examples of such a crate do not parse). *)
+Theorem package_name_shape svc :
+  forallb ad svc = true -> existsb is_alnum svc = true ->
+  good (package_name svc) = true /\
+  ident_new_ok (package_name svc) = negb (match package_name svc with c :: _ => is_digit c | [] => false end).
+Proof.
+  intros Ha He. pose proof (snake_good svc Ha He) as Hg. split; [exact Hg|].
+  unfold package_name in *. destruct (snake svc) as [|c t]; [discriminate|].
+  cbn [good] in Hg. apply andb_prop in Hg as [Hc Ht]. cbn [ident_new_ok].
+  rewrite (forallb_impl lcu ident_char t lcu_ident_char Ht), andb_true_r.
+  destruct (is_digit c) eqn:Hd.
+  - rewrite (lc_digit_not_start c Hc Hd). reflexivity.
+  - rewrite (lc_nodigit_alpha c Hc Hd). reflexivity.
+Qed.
